@@ -40,7 +40,9 @@ def run(chk: Check) -> None:
     loop_communicator(chk)
 
 
-def dispatch(chk: Check) -> None:
+def dispatch_tables(chk: Check, tab_rule: str = 'TAB-dispatch', sib_rule: str = 'SIB-dispatch') -> None:
+    """Decision tables of the two message handlers over the intent: every control intent is handed, with the direct caller's arguments, to the ONE scheduling routine
+    (_schedule_rpc), so requests that arrive as messages are carried out in the order they arrive and exactly as a direct call would be."""
     prog = chk.prog
     mr = prog.func('processes.Process.message_receive')
     mparam = mr.params[2]
@@ -48,7 +50,7 @@ def dispatch(chk: Check) -> None:
     for n in ast.walk(mr.node):
         if isinstance(n, ast.Assign) and isinstance(n.value, ast.Subscript) and norm(n.value.value) == mparam and prog.fold(mr.module, n.value.slice) == 'intent':
             subj = norm(n.targets[0])
-    chk.ob('TAB-dispatch', mr, subj is not None, 'the RPC handler dispatches on the intent stored under INTENT_KEY of the message', kind='rpc-subject')
+    chk.ob(tab_rule, mr, subj is not None, 'the RPC handler dispatches on the intent stored under INTENT_KEY of the message', kind='rpc-subject')
     from ..decisions import paths_under, value_on_path
     ic = prog.cls('process_comms.Intent')
     consts = {m: prog.fold(ic.module, v, ic) for m, v in ic.attrs.items()}
@@ -137,22 +139,27 @@ def dispatch(chk: Check) -> None:
     for intent, (target, args) in CONTROL.items():
         ok, c = control_ok(mr, mtab.get(intent), target, args, mparam)
         rpc_shape[intent] = [(o[1], o[2]) for o in mtab.get(intent, []) if o[0] == 'call']
-        chk.ob('TAB-dispatch', mr, ok, f'RPC intent {intent} schedules {target}({", ".join(a + "=<message text>" for a in args)}) -- the same call a direct caller makes (decision table over the '
+        chk.ob(tab_rule, mr, ok, f'RPC intent {intent} schedules {target}({", ".join(a + "=<message text>" for a in args)}) -- the same call a direct caller makes (decision table over the '
                f'intent: {len(mtab.get(intent, []))} path(s))', node=c, kind=f'rpc:{intent}', expr=None if c is not None else intent)
     st = mtab.get('STATUS', [])
-    chk.ob('TAB-dispatch', mr, bool(st) and all(o[0] == 'status' and o[1] == o[2] for o in st), 'RPC intent STATUS replies with get_status_info', kind='rpc:STATUS', expr='STATUS')
+    chk.ob(tab_rule, mr, bool(st) and all(o[0] == 'status' and o[1] == o[2] for o in st), 'RPC intent STATUS replies with get_status_info', kind='rpc:STATUS', expr='STATUS')
     none = mtab.get(None, [])
-    chk.ob('TAB-dispatch', mr, bool(none) and all(o[0] == 'raise' for o in none), 'an unknown intent raises (is not executed as something else)', kind='rpc-unknown-raises')
+    chk.ob(tab_rule, mr, bool(none) and all(o[0] == 'raise' for o in none), 'an unknown intent raises (is not executed as something else)', kind='rpc-unknown-raises')
     for intent, (target, args) in CONTROL.items():
         ok, c = control_ok(br, btab.get(intent), target, args, br.params[2])
-        chk.ob('TAB-dispatch', br, ok, f'broadcast subject {intent} schedules {target} with the same arguments as the RPC variant', node=c, kind=f'broadcast:{intent}', expr=None if c is not None else intent)
+        chk.ob(tab_rule, br, ok, f'broadcast subject {intent} schedules {target} with the same arguments as the RPC variant', node=c, kind=f'broadcast:{intent}', expr=None if c is not None else intent)
         # sibling agreement: for each control intent the two handlers schedule the same call
         def shape(sh):   # (``d.get(k)`` is ``d.get(k, None)``)
             return {(a_, tuple((k, v.replace(', None)', ')')) for k, v in kv)) for a_, kv in sh}
         b_shape = [(o[1], tuple((k, v.replace(br.params[2], mparam)) for k, v in o[2])) for o in btab.get(intent, []) if o[0] == 'call']
-        chk.ob('SIB-dispatch', br, bool(b_shape) and shape(b_shape) == shape(rpc_shape.get(intent, [])), f'RPC and broadcast handlers agree for {intent}', kind=f'agree:{intent}', expr=intent)
+        chk.ob(sib_rule, br, bool(b_shape) and shape(b_shape) == shape(rpc_shape.get(intent, [])), f'RPC and broadcast handlers agree for {intent}', kind=f'agree:{intent}', expr=intent)
     bn = btab.get(None, []) + btab.get('STATUS', [])
-    chk.ob('TAB-dispatch', br, bool(bn) and all(o[0] == 'return' and o[1] == 'None' for o in bn), 'any other broadcast subject is ignored (nothing is scheduled)', kind='broadcast-other-ignored')
+    chk.ob(tab_rule, br, bool(bn) and all(o[0] == 'return' and o[1] == 'None' for o in bn), 'any other broadcast subject is ignored (nothing is scheduled)', kind='broadcast-other-ignored')
+
+
+def dispatch(chk: Check) -> None:
+    prog = chk.prog
+    dispatch_tables(chk)
     # MessageBuilder
     mb = prog.cls('process_comms.MessageBuilder')
     for name in ('play', 'pause', 'kill', 'status'):
@@ -402,6 +409,25 @@ def subscriptions(chk: Check) -> None:
     chk.ob('PAIR-subscription', init, ok, 'subscriptions are made whenever a communicator is given (no further condition)', kind='iff-communicator')
 
 
+def converted_subscriber(chk: Check, rule: str) -> None:
+    """A subscriber converted for the communicator thread is called with the communicator and all message arguments, scheduled on the loop through create_task, and its
+    outcome -- nested loop futures included -- mirrored to the communicator thread through plum_to_kiwi_future."""
+    prog = chk.prog
+    cv = prog.func('communications.convert_to_comm.converted')
+    part = [c for c in calls_in_func(cv) if norm(c.func) == 'functools.partial']
+    ok = len(part) == 1 and [norm(a) for a in part[0].args] == ['coro', cv.params[0], f'*{cv.node.args.vararg.arg}'] and [(k.arg, norm(k.value)) for k in part[0].keywords] == [(None, cv.node.args.kwarg.arg)]
+    chk.ob(rule, cv, ok, 'a converted subscriber is called with the communicator and all message arguments', kind='converted-forwards')
+    ct = [c for c in calls_in_func(cv) if last_name(c) == 'create_task']
+    pk = [c for c in calls_in_func(cv) if last_name(c) == 'plum_to_kiwi_future']
+    res = Resolver(cv)
+    ok = len(ct) == 1 and len(pk) == 1 and len(part) == 1 and len(pk[0].args) == 1 and len(ct[0].args) == 2
+    if ok:
+        # the value mirrored is the task, the task runs the partial, on the loop given to convert_to_comm (locals expanded)
+        ok = (norm(res.expand(pk[0].args[0])) == norm(res.expand(ct[0])) and norm(res.expand(ct[0].args[0])) == norm(res.expand(part[0]))
+              and norm(res.expand(ct[0].args[1])) == 'loop')
+    chk.ob(rule, cv, ok, 'it is scheduled on the loop and its outcome mirrored to the communicator thread (C20)', kind='scheduled-and-mirrored')
+
+
 def loop_communicator(chk: Check) -> None:
     prog = chk.prog
     lc = prog.cls('communications.LoopCommunicator')
@@ -426,17 +452,5 @@ def loop_communicator(chk: Check) -> None:
             ok &= name == 'close' or (len(rets) == 1 and rets[0].value is inner[0])
         chk.ob('FWD-loop-communicator', f, ok, f'LoopCommunicator.{name} forwards every parameter to the wrapped communicator and returns its answer', kind='forwards-all')
     chk.floor('FWD-loop-communicator', n, 10)
-    cv = prog.func('communications.convert_to_comm.converted')
-    part = [c for c in calls_in_func(cv) if norm(c.func) == 'functools.partial']
-    ok = len(part) == 1 and [norm(a) for a in part[0].args] == ['coro', cv.params[0], f'*{cv.node.args.vararg.arg}'] and [(k.arg, norm(k.value)) for k in part[0].keywords] == [(None, cv.node.args.kwarg.arg)]
-    chk.ob('FWD-loop-communicator', cv, ok, 'a converted subscriber is called with the communicator and all message arguments', kind='converted-forwards')
-    ct = [c for c in calls_in_func(cv) if last_name(c) == 'create_task']
-    pk = [c for c in calls_in_func(cv) if last_name(c) == 'plum_to_kiwi_future']
-    res = Resolver(cv)
-    ok = len(ct) == 1 and len(pk) == 1 and len(part) == 1 and len(pk[0].args) == 1 and len(ct[0].args) == 2
-    if ok:
-        # the value mirrored is the task, the task runs the partial, on the loop given to convert_to_comm (locals expanded)
-        ok = (norm(res.expand(pk[0].args[0])) == norm(res.expand(ct[0])) and norm(res.expand(ct[0].args[0])) == norm(res.expand(part[0]))
-              and norm(res.expand(ct[0].args[1])) == 'loop')
-    chk.ob('FWD-loop-communicator', cv, ok, 'it is scheduled on the loop and its outcome mirrored to the communicator thread (C20)', kind='scheduled-and-mirrored')
+    converted_subscriber(chk, 'FWD-loop-communicator')
     chk.assumptions.append('equivalence with the directly controlled twin inherits every C04-C06 finding (the remote path calls the same methods) and is not decided here')
